@@ -91,7 +91,8 @@ ApplyWrap(w) ==
      ELSE w \in Wrappers /\ ty' = Wrap(w, ty) /\ sup' = sup
   /\ wraps' = Append(wraps, w) /\ phase' = "wrap" /\ UNCHANGED leaf
 
-\* the macro is total on it whatever the context; nothing else is predicted here
+\* the macro is total on it whatever the context; the one further prediction: naming the same type twice as an Into
+\* target (context "into_dup": on the type, or on one field) is refused, however the type is written
 Emit ==
   /\ phase = "wrap"
   /\ phase' = "done" /\ UNCHANGED <<ty, wraps, sup, leaf>>
